@@ -195,10 +195,12 @@ mod vk_range {
         it.counter().store(c0);
         let cl = it.clone();
         assert!(cl.counter().current() == c0, "[C19 clone-pos] a clone starts at the original's current position");
-        assert!(cl.range().start == s && cl.range().end == e, "[C19 clone-src] a clone iterates the same range");
-        let _ = cl.next();
+        let x = cl.next_id_and_value().map(|x| (x.idx, x.value));
+        kani::cover!(x.is_some(), "clone delivers");
+        assert!(x == if c0 < len { Some((c0, s + c0)) } else { None }, "[C19 clone-src] a clone iterates the same range from that position");
         assert!(it.counter().current() == c0, "[C19 independent] pulling from the clone does not move the original");
-        let _ = len;
+        let r = it.into_seq_iter();
+        if c0 < len { assert!(r.start == s + c0 && r.end == e, "[C19 C10 clone-src] the original is unaffected by its clone"); }
     }
 
     // the same operations seen at the level of the std atomics (every atomic operation on the counter is logged, whatever
